@@ -80,7 +80,7 @@ def main(argv=None) -> int:
 
 # Properties whose harness constructs TupimageTerminal in-process: it always opens /dev/tty, so the
 # whole check is re-executed as the session leader of a fresh pty (its stdout/stderr stay ours).
-NEEDS_TTY = {"C08", "C09"}
+NEEDS_TTY = {"C04", "C08", "C09"}
 
 
 def run_under_pty(cmd) -> int:
